@@ -187,6 +187,29 @@ func init() {
 		ex.Removes(comps(op.Rem))
 		ex.Remove(h)
 	})
+	// the batch forms of the same requests: the filter selects (at least) the victim entity
+	addMisuse("dup", "Map.AddBatch(dup)", func(d *Drv, op *Op, h, _ ecs.Entity) {
+		var tg []ecs.Entity
+		if u.Types[op.Add[0]].IsRel {
+			tg = []ecs.Entity{{}}
+		}
+		f := typed.NewFilter0(d.W, false)
+		f.With(comps(op.Add[:1]))
+		d.Maps[op.Add[0]].AddBatch(f.Batch(nil), 5, tg)
+	})
+	addMisuse("dup", "Map.AddBatchFn(dup, all entities)", func(d *Drv, op *Op, h, _ ecs.Entity) {
+		var tg []ecs.Entity
+		if u.Types[op.Add[0]].IsRel {
+			tg = []ecs.Entity{{}}
+		}
+		d.Maps[op.Add[0]].AddBatchFn(typed.NewFilter0(d.W, false).Batch(nil), func(ecs.Entity, unsafe.Pointer) {}, tg)
+	})
+	addMisuse("missing", "Map.RemoveBatch(missing)", func(d *Drv, op *Op, h, _ ecs.Entity) {
+		d.Maps[op.Rem[0]].RemoveBatch(typed.NewFilter0(d.W, false).Batch(nil), nil)
+	})
+	addMisuse("missing", "Map.RemoveBatch(missing, with callback)", func(d *Drv, op *Op, h, _ ecs.Entity) {
+		d.Maps[op.Rem[0]].RemoveBatch(typed.NewFilter0(d.W, false).Batch(nil), func(ecs.Entity) {})
+	})
 	addMisuse("empty", "Unsafe.Add()", func(d *Drv, op *Op, h, _ ecs.Entity) { d.U.Add(h) })
 	addMisuse("empty", "Unsafe.Remove()", func(d *Drv, op *Op, h, _ ecs.Entity) { d.U.Remove(h) })
 	addMisuse("empty", "Unsafe.Exchange(nil,nil)", func(d *Drv, op *Op, h, _ ecs.Entity) { d.U.Exchange(h, nil, nil) })
@@ -207,6 +230,42 @@ func init() {
 	addMisuse("noreltarget", "Map.Add(rel, no target)", func(d *Drv, op *Op, h, _ ecs.Entity) { d.Maps[op.Add[0]].Add(h, 3, nil) })
 	addMisuse("noreltarget", "Map.NewBatch(rel, no target)", func(d *Drv, op *Op, _, _ ecs.Entity) {
 		d.Maps[op.Add[0]].NewBatch(3, 3, nil)
+	})
+	// one relation is given twice and another one not at all: the number of relation arguments is right, a required
+	// target is still missing. h is an alive entity (used as target and, for Add, as victim if it has no relation yet)
+	relPair := func() (int, []int) {
+		for ti, t := range typed.Tuples {
+			var pos []int
+			for j, c := range t.Comps {
+				if u.Types[c].IsRel {
+					pos = append(pos, j)
+				}
+			}
+			if len(pos) >= 2 && len(t.Comps) == len(pos) {
+				return ti, pos
+			}
+		}
+		panic("no tuple of relation components only")
+	}
+	addMisuse("noreltarget", "MapN.NewEntity(one relation twice, another omitted)", func(d *Drv, op *Op, h, _ ecs.Entity) {
+		ti, pos := relPair()
+		rel := make([]ecs.Relation, len(pos))
+		for k := range rel {
+			rel[k] = ecs.RelIdx(pos[0], h)
+		}
+		d.TMap(ti).NewEntity(make([]int64, len(typed.Tuples[ti].Comps)), rel)
+	})
+	addMisuse("noreltarget", "MapN.NewBatch(one relation twice, another omitted)", func(d *Drv, op *Op, h, _ ecs.Entity) {
+		ti, pos := relPair()
+		rel := make([]ecs.Relation, len(pos))
+		for k := range rel {
+			rel[k] = u.Types[typed.Tuples[ti].Comps[pos[len(pos)-1]]].Rel(h)
+		}
+		d.TMap(ti).NewBatch(2, make([]int64, len(typed.Tuples[ti].Comps)), rel)
+	})
+	addMisuse("noreltarget", "Unsafe.NewEntityRel(one relation twice, another omitted)", func(d *Drv, op *Op, h, _ ecs.Entity) {
+		a, b := d.ID[u.RelIdx[op.N%3]], d.ID[u.RelIdx[(op.N+1)%3]]
+		d.U.NewEntityRel([]ecs.ID{a, b}, ecs.RelID(a, h), ecs.RelID(a, ecs.Entity{}))
 	})
 	addMisuse("noreltarget", "Unsafe.Exchange(add rel, no target)", func(d *Drv, op *Op, h, _ ecs.Entity) {
 		d.U.Exchange(h, []ecs.ID{d.ID[op.Add[0]]}, d.ids(op.Rem))
